@@ -144,7 +144,8 @@ func (m *Machine) trap(name string, fn *ssa.Function, args []value) value {
 		return zero(res.At(0).Type())
 	}
 	z := zero(res).(tuple)
-	if !m.path.trapsExpected && isErr(res.At(res.Len()-1).Type()) {
+	statLike := name == "os.Lstat" || name == "os.Stat" // a nil FileInfo with a nil error would be dereferenced by every caller
+	if (!m.path.trapsExpected || statLike) && isErr(res.At(res.Len()-1).Type()) {
 		z[res.Len()-1] = m.mkError("verif: real-OS call trapped: " + name)
 	}
 	return z
